@@ -102,7 +102,7 @@ LoadC(st, s0, isRoot, isDyn, ref, attr, count) ==
   LET s == IF s0 \in DOMAIN st.redirects THEN st.redirects[s0] ELSE s0 IN
   IF s \in DOMAIN st.slots THEN st
   ELSE [st EXCEPT !.slots = Put(st.slots, s, [k |-> "pending"]),
-                  !.pend = Append(st.pend, [s |-> s, root |-> isRoot, dyn |-> isDyn, ref |-> ref, attr |-> attr, count |-> count])]
+                  !.pend = Append(st.pend, [s |-> s, root |-> isRoot, dyn |-> isDyn, ref |-> ref, attr |-> attr, count |-> count, landed |-> FALSE])]
 Load(st, s, isRoot, isDyn, ref, attr) == LoadC(st, s, isRoot, isDyn, ref, attr, 0)
 
 \* dynamic_branches.entry(spec).or_insert (code) / .insert (type): first referrer kept for code,
